@@ -184,6 +184,31 @@ def record_structure(tape, dev):
     return {"dev": [devid[w] for w in dev], "frags": rec_frags, "edges": edges}, sorted(impl), ntapes
 
 
+def joint_outcomes(tapes, dev):
+    """Outcomes of the one-shot fragment tapes of cut_circuit_mc with all measurements of a tape taken from the SAME shot: the
+    measured wires are rotated to the computational basis and sampled once (Projector -> bit, Pauli -> eigenvalue, Identity -> 1)."""
+    new = []
+    for t in tapes:
+        ops, ws = list(t.operations), []
+        for m in t.measurements:
+            w = m.obs.wires[0]
+            ws.append(w)
+            if m.obs.name == "PauliX":
+                ops.append(qp.Hadamard(w))
+            elif m.obs.name == "PauliY":
+                ops += [qp.adjoint(qp.S(w)), qp.Hadamard(w)]
+            elif m.obs.name not in ("PauliZ", "Identity", "Projector"):
+                raise lib.MachineryError(f"unexpected fragment measurement {m}")
+        new.append(qp.tape.QuantumScript(ops, [qp.sample(wires=ws)], shots=1))
+    out = []
+    for t, r in zip(tapes, qp.execute(new, dev, diff_method=None)):
+        bits = np.asarray(r).reshape(-1)
+        vals = [np.array([float(b)]) if m.obs.name == "Projector" else np.array([1.0]) if m.obs.name == "Identity" else np.array([1.0 - 2.0 * b])
+                for m, b in zip(t.measurements, bits)]
+        out.append(tuple(vals) if len(vals) > 1 else vals[0])
+    return out
+
+
 def hand_records():
     """negative controls: the documentation example written out by hand, then one clause broken at a time"""
     def ops0():
@@ -392,17 +417,24 @@ def run(tier, seed):
         try:
             tapes, fn = qp.cut_circuit_mc(tape, classical_processing_fn=lambda b: float((-1) ** int(np.sum(b))),
                                           device_wires=qp.wires.Wires(dev), seed=1000 * seed + n)
-            out = qp.execute(list(tapes), qp.device("default.qubit", wires=dev, seed=77 + 1000 * seed + n), diff_method=None)
-            got = float(np.asarray(fn(out)))
+            d = qp.device("default.qubit", wires=dev, seed=77 + 1000 * seed + n)
+            got = float(np.asarray(fn(qp.execute(list(tapes), d, diff_method=None))))
+            got_joint = float(np.asarray(fn(joint_outcomes(tapes, d))))
         except Exception as e:
             viol.append(Violation(key=f"mc:exception:{type(e).__name__}", detail=f"{type(e).__name__}: {e} on {[str(o) for o in ops]}", replay={"case": c}))
             continue
         sigma = 4 ** K / math.sqrt(shots)
-        mc.append({"ops": [str(o) for o in ops], "shots": shots, "estimate": got, "exact": want, "sigma_bound": sigma, "z": abs(got - want) / sigma})
-        n_exec += len(tapes)
-        if abs(got - want) > 6 * sigma:
-            viol.append(Violation(key="mc:estimate-outside-6-sigma", detail=f"cut_circuit_mc estimate {got} vs exact {want}, sigma <= {sigma} ({shots} shots): {[str(o) for o in ops]}",
-                                  replay={"case": c, "estimate": got, "exact": want}))
+        mc.append({"ops": [str(o) for o in ops], "shots": shots, "estimate": got, "estimate_with_joint_outcomes": got_joint, "exact": want,
+                   "sigma_bound": sigma, "z": abs(got - want) / sigma, "z_joint": abs(got_joint - want) / sigma})
+        n_exec += 2 * len(tapes)
+        if abs(got_joint - want) > 6 * sigma:
+            viol.append(Violation(key="mc:estimate-outside-6-sigma", detail=f"cut_circuit_mc estimate {got_joint} (fragment outcomes drawn jointly per shot) vs exact {want}, "
+                                  f"sigma <= {sigma} ({shots} shots): {[str(o) for o in ops]}", replay={"case": c, "estimate": got_joint, "exact": want}))
+        elif abs(got - want) > 6 * sigma:
+            viol.append(Violation(key="mc:estimate-outside-6-sigma:device-draws-each-sample-measurement-independently",
+                                  detail=f"cut_circuit_mc on default.qubit estimates {got}, exact {want}, sigma <= {sigma} ({shots} shots); with the outcomes of one "
+                                         f"shot drawn jointly the same post-processing gives {got_joint}: {[str(o) for o in ops]}",
+                                  replay={"case": c, "estimate": got, "estimate_joint": got_joint, "exact": want}))
     lap("mc")
     T.pop("t0")
     # comparator negative control
